@@ -179,9 +179,46 @@ theorem emit_found {fv : FieldDesc × Val} {q : Paragraph} (h : emit fv = .ok (.
 
 /-! ### field names occurring once -/
 
+def known (f : FieldDesc) : Bool := !f.anonymous && f.key != [45]
+
+theorem known_iff {f : FieldDesc} : known f = true ↔ f.anonymous = false ∧ f.key ≠ [45] := by
+  simp [known]
+
+theorem knownKeys_cons (a : FieldDesc) (s : Schema) :
+    knownKeys (a :: s) = if known a = true then a.key :: knownKeys s else knownKeys s := by
+  unfold knownKeys known
+  by_cases h : (!a.anonymous && a.key != [45]) = true
+  · rw [if_pos h, List.filter_cons, if_pos h]; rfl
+  · rw [if_neg h, List.filter_cons, if_neg h]
+
+theorem mem_knownKeys {f : FieldDesc} {s : Schema} (hf : f ∈ s) (ha : f.anonymous = false)
+    (hk : f.key ≠ [45]) : f.key ∈ knownKeys s := by
+  unfold knownKeys
+  exact List.mem_map_of_mem (List.mem_filter.mpr ⟨hf, by simp [ha, hk]⟩)
+
+theorem of_mem_knownKeys {k : Bytes} {s : Schema} (h : k ∈ knownKeys s) :
+    ∃ f ∈ s, f.anonymous = false ∧ f.key ≠ [45] ∧ f.key = k := by
+  unfold knownKeys at h
+  obtain ⟨f, hf, hk⟩ := List.mem_map.mp h
+  obtain ⟨hf1, hf2⟩ := List.mem_filter.mp hf
+  have := known_iff.mp hf2
+  exact ⟨f, hf1, this.1, this.2, hk⟩
+
+theorem count_knownKeys_le (s : Schema) (k : Bytes) :
+    (knownKeys s).count k ≤ (s.map FieldDesc.key).count k := by
+  induction s with
+  | nil => simp [knownKeys]
+  | cons a s ih =>
+    rw [knownKeys_cons, List.map_cons, List.count_cons]
+    split
+    · rw [List.count_cons]; omega
+    · omega
+
 theorem zip_unique_key {s : Schema} {r : List Val} {k : Bytes}
-    (hu : (s.map FieldDesc.key).count k ≤ 1) {f g : FieldDesc} {v w : Val}
-    (hf : (f, v) ∈ s.zip r) (hg : (g, w) ∈ s.zip r) (hfk : f.key = k) (hgk : g.key = k) :
+    (hu : (knownKeys s).count k ≤ 1) {f g : FieldDesc} {v w : Val}
+    (hf : (f, v) ∈ s.zip r) (hg : (g, w) ∈ s.zip r)
+    (haf : f.anonymous = false) (hag : g.anonymous = false) (hk45 : k ≠ [45])
+    (hfk : f.key = k) (hgk : g.key = k) :
     (f, v) = (g, w) := by
   induction s generalizing r with
   | nil => simp at hf
@@ -190,28 +227,38 @@ theorem zip_unique_key {s : Schema} {r : List Val} {k : Bytes}
     | nil => simp at hf
     | cons b r =>
       rw [List.zip_cons_cons, List.mem_cons] at hf hg
-      rw [List.map_cons, List.count_cons] at hu
-      by_cases hak : a.key = k
-      · have h0 : (s.map FieldDesc.key).count k = 0 := by
-          simp only [hak, beq_self_eq_true, if_true] at hu; omega
-        have hno : ∀ x y, (x, y) ∈ s.zip r → x.key ≠ k := by
-          intro x y hxy hx
-          have : k ∈ s.map FieldDesc.key := by
-            rw [← hx]; exact List.mem_map_of_mem (mem_zip_left hxy)
-          exact absurd (List.count_pos_iff.mpr this) (by omega)
+      rw [knownKeys_cons] at hu
+      have hkf : known f = true := known_iff.mpr ⟨haf, by rw [hfk]; exact hk45⟩
+      have hkg : known g = true := known_iff.mpr ⟨hag, by rw [hgk]; exact hk45⟩
+      by_cases hka : known a = true
+      · rw [if_pos hka, List.count_cons] at hu
+        by_cases hak : a.key = k
+        · have h0 : (knownKeys s).count k = 0 := by
+            simp only [hak, beq_self_eq_true, if_true] at hu; omega
+          have hno : ∀ x y, (x, y) ∈ s.zip r → x.anonymous = false → x.key ≠ k := by
+            intro x y hxy hxa hx
+            have : k ∈ knownKeys s := by
+              rw [← hx]; exact mem_knownKeys (mem_zip_left hxy) hxa (by rw [hx]; exact hk45)
+            exact absurd (List.count_pos_iff.mpr this) (by omega)
+          rcases hf with hf | hf
+          · rcases hg with hg | hg
+            · rw [hf, hg]
+            · exact absurd hgk (hno _ _ hg hag)
+          · exact absurd hfk (hno _ _ hf haf)
+        · have hu' : (knownKeys s).count k ≤ 1 := by
+            have : (a.key == k) = false := by simpa using hak
+            simpa [this] using hu
+          rcases hf with hf | hf
+          · cases hf; exact absurd hfk hak
+          · rcases hg with hg | hg
+            · cases hg; exact absurd hgk hak
+            · exact ih hu' hf hg
+      · rw [if_neg hka] at hu
         rcases hf with hf | hf
+        · cases hf; exact absurd hkf hka
         · rcases hg with hg | hg
-          · rw [hf, hg]
-          · exact absurd hgk (hno _ _ hg)
-        · exact absurd hfk (hno _ _ hf)
-      · have hu' : (s.map FieldDesc.key).count k ≤ 1 := by
-          have : (a.key == k) = false := by simpa using hak
-          simpa [this] using hu
-        rcases hf with hf | hf
-        · cases hf; exact absurd hfk hak
-        · rcases hg with hg | hg
-          · cases hg; exact absurd hgk hak
-          · exact ih hu' hf hg
+          · cases hg; exact absurd hkg hka
+          · exact ih hu hf hg
 
 /-! ### which fields are written -/
 
@@ -219,7 +266,7 @@ theorem mem_order_convert {s : Schema} {r : List Val} {p : Paragraph}
     (h : convertToParagraph s r = .ok p) {f : FieldDesc} {v : Val} (hf : (f, v) ∈ s.zip r)
     (ha : f.anonymous = false) (hk : f.key ≠ [45]) {data : Bytes}
     (hd : marshalValue 16 f.kind f.delim v = .ok data)
-    (hu : (s.map FieldDesc.key).count f.key ≤ 1) :
+    (hu : (knownKeys s).count f.key ≤ 1) :
     f.key ∈ p.order ↔ (f.required = true ∨ data ≠ []) := by
   obtain ⟨es, hes, rfl⟩ := convert_spec h
   have hall := mapRes_ok hes
@@ -237,8 +284,8 @@ theorem mem_order_convert {s : Schema} {r : List Val} {p : Paragraph}
         simp only at hk'
         subst hk'
         obtain ⟨⟨g, w⟩, hg, hgem⟩ := all₂_mem_right hall (mem_writes.mp hkd)
-        obtain ⟨_, _, hgk, _⟩ := emit_write hgem
-        have := zip_unique_key hu hf hg rfl hgk.symm
+        obtain ⟨hga, _, hgk, _⟩ := emit_write hgem
+        have := zip_unique_key hu hf hg ha hga hk rfl hgk.symm
         cases this
         rw [emit_of_marshal (fv := (f, v)) ha hk hd, if_pos hc] at hgem
         cases hgem
